@@ -249,7 +249,7 @@ package phase0
 //@   opt weakcalls
 //@   opt inline=closures
 //@   requires state != nil && dep != nil
-//@   assigns anything
+//@   assigns anything, ghost(n_set_bal)
 //@   ensures proof: err == nil && !ignoreSignatureAndProof ==> !st_depidx_err(state) && !st_eth1_err(state) && mfold(deposit_data_root(old(dep.Data)), old(seq(dep.Proof)), st_depidx(state), common.DEPOSIT_CONTRACT_TREE_DEPTH + 1) == st_eth1(state).DepositRoot
 
 // ---------------------------------------------------------------- registry updates: the exit queue handed to the ejections (C02)
@@ -275,6 +275,12 @@ package phase0
 //@     invariant currentEpoch + 1 + spec.MAX_SEED_LOOKAHEAD < 4611686018427387904 ==> exitQueueEnd == fexq_max(flats, i, currentEpoch + 1 + spec.MAX_SEED_LOOKAHEAD) && exitQueueEnd != common.FAR_FUTURE_EPOCH && exitQueueEndChurn == fexq_count(flats, i, exitQueueEnd) && exitQueueEndChurn <= i
 //@     invariant forall k :: {flats[k]} 0 <= k && k < i && flats[k].ExitEpoch != common.FAR_FUTURE_EPOCH ==> flats[k].ExitEpoch <= exitQueueEnd
 
+// the fork's penalty parameters (C02, C01): slashing penalty quotient, proportional slashing multiplier, inactivity penalty quotient
+//@ func (state *BeaconStateView) ForkSettings(spec) r
+//@   property C02 C01
+//@   requires spec != nil
+//@   ensures r != nil && r.MinSlashingPenaltyQuotient == spec.MIN_SLASHING_PENALTY_QUOTIENT && r.ProportionalSlashingMultiplier == spec.PROPORTIONAL_SLASHING_MULTIPLIER && r.InactivityPenaltyQuotient == spec.INACTIVITY_PENALTY_QUOTIENT
+
 // BEGIN C18 generated (tools/gen_c18.py in /verif)
 // cancelled: a context cancelled before the call makes it fail; surfaced: a cancellation observed by a poll
 // during the call makes it fail; polled: success after a poll means the context was not cancelled at entry.
@@ -292,6 +298,7 @@ package phase0
 //@   loop *
 //@     invariant ctx_t >= old(ctx_t) && (old(ctx_seen) || !ctx_seen)
 //@     invariant ctx_t > old(ctx_t) ==> !ctx_cancelled(ctx, old(ctx_t))
+//@   assigns ghost(n_set_bal)
 
 //@ func ComputeEpochAttesterData(ctx, spec, epc, flats, state) (r0, err)
 //@   property C18
@@ -320,6 +327,7 @@ package phase0
 //@   loop *
 //@     invariant ctx_t >= old(ctx_t) && (old(ctx_seen) || !ctx_seen)
 //@     invariant ctx_t > old(ctx_t) ==> !ctx_cancelled(ctx, old(ctx_t))
+//@   assigns ghost(n_set_bal)
 //@   assigns ghost(n_viter), ghost(viter_pos), ghost(viter_reg), ghost(n_val_write), ghost(n_set_exit), ghost(set_exit_v), ghost(set_exit_val), ghost(n_set_wd), ghost(set_wd_v), ghost(set_wd_val)
 
 //@ func AttestationRewardsAndPenalties(ctx, spec, epc, attesterData, state) (r0, err)
@@ -366,6 +374,7 @@ package phase0
 //@     invariant ctx_t >= old(ctx_t) && (old(ctx_seen) || !ctx_seen)
 //@     invariant ctx_t > old(ctx_t) ==> !ctx_cancelled(ctx, old(ctx_t))
 //@   ensures c03_count: err == nil ==> !st_eth1_err(state) && !st_depidx_err(state) && len(ops) == min(spec.MAX_DEPOSITS, (st_eth1(state).DepositCount - st_depidx(state)) % 18446744073709551616)
+//@   assigns ghost(n_set_bal)
 
 //@ func ProcessEth1Vote(ctx, spec, epc, state, data) err
 //@   property C18
@@ -529,6 +538,7 @@ package phase0
 //@   loop *
 //@     invariant ctx_t >= old(ctx_t) && (old(ctx_seen) || !ctx_seen)
 //@     invariant ctx_t > old(ctx_t) ==> !ctx_cancelled(ctx, old(ctx_t))
+//@   assigns ghost(n_set_bal)
 //@   assigns ghost(n_viter), ghost(viter_pos), ghost(viter_reg), ghost(n_val_write), ghost(n_set_exit), ghost(set_exit_v), ghost(set_exit_val), ghost(n_set_wd), ghost(set_wd_v), ghost(set_wd_val)
 
 //@ func ProcessRandaoReveal(ctx, spec, epc, state, reveal) err
@@ -567,7 +577,7 @@ package phase0
 //@   assigns ghost(n_viter), ghost(viter_pos), ghost(viter_reg), ghost(n_val_write), ghost(n_set_exit), ghost(set_exit_v), ghost(set_exit_val), ghost(n_set_wd), ghost(set_wd_v), ghost(set_wd_val)
 
 //@ func ProcessEpochSlashings(ctx, spec, epc, flats, state) err
-//@   property C18
+//@   property C18 C02
 //@   panics off
 //@   requires ctx != nil
 //@   opt weakcalls
@@ -580,6 +590,19 @@ package phase0
 //@   loop *
 //@     invariant ctx_t >= old(ctx_t) && (old(ctx_seen) || !ctx_seen)
 //@     invariant ctx_t > old(ctx_t) ==> !ctx_cancelled(ctx, old(ctx_t))
+//@   opt rangeindex=on
+//@   opt mul=opaque
+//@   use mul64_range
+//@   assigns ghost(n_set_bal)
+//@   ensures c02_penalties: err == nil && old(spec != nil && epc != nil && state != nil && epc.CurrentEpoch != nil && len(flats) < 4611686018427387904) ==> !st_bals_err(state) && !st_slashings_err(state) && (forall k :: {bal_at(n_set_bal, st_bals(state), k)} 0 <= k && k < len(flats) ==> bal_at(n_set_bal, st_bals(state), k) == old(ite(flats[k].Slashed && (epc.CurrentEpoch.Epoch + spec.EPOCHS_PER_SLASHINGS_VECTOR / 2) % 18446744073709551616 == flats[k].WithdrawableEpoch, ite(bal_at(n_set_bal, st_bals(state), k) >= mul64(mul64(flats[k].EffectiveBalance / spec.EFFECTIVE_BALANCE_INCREMENT, min(max(eb_sum(flats, epc.CurrentEpoch.ActiveIndices, len(epc.CurrentEpoch.ActiveIndices)), spec.EFFECTIVE_BALANCE_INCREMENT), mul64(slash_total(st_slashings(state)), st_fs(state).ProportionalSlashingMultiplier))) / max(eb_sum(flats, epc.CurrentEpoch.ActiveIndices, len(epc.CurrentEpoch.ActiveIndices)), spec.EFFECTIVE_BALANCE_INCREMENT), spec.EFFECTIVE_BALANCE_INCREMENT), bal_at(n_set_bal, st_bals(state), k) - mul64(mul64(flats[k].EffectiveBalance / spec.EFFECTIVE_BALANCE_INCREMENT, min(max(eb_sum(flats, epc.CurrentEpoch.ActiveIndices, len(epc.CurrentEpoch.ActiveIndices)), spec.EFFECTIVE_BALANCE_INCREMENT), mul64(slash_total(st_slashings(state)), st_fs(state).ProportionalSlashingMultiplier))) / max(eb_sum(flats, epc.CurrentEpoch.ActiveIndices, len(epc.CurrentEpoch.ActiveIndices)), spec.EFFECTIVE_BALANCE_INCREMENT), spec.EFFECTIVE_BALANCE_INCREMENT), 0), bal_at(n_set_bal, st_bals(state), k))))
+//@   ensures c02_others: err == nil && old(spec != nil && epc != nil && state != nil && epc.CurrentEpoch != nil && len(flats) < 4611686018427387904) ==> (forall k :: {bal_at(n_set_bal, st_bals(state), k)} k < 0 || k >= len(flats) ==> bal_at(n_set_bal, st_bals(state), k) == old(bal_at(n_set_bal, st_bals(state), k)))
+//@   loop 1
+//@     invariant totalActiveStake == eb_sum(flats, epc.CurrentEpoch.ActiveIndices, rangeindex + 1) && n_set_bal == old(n_set_bal)
+//@   loop 2
+//@     invariant 0 <= i && i <= len(flats) && n_set_bal >= old(n_set_bal) && bals == st_bals(state) && slashings == st_slashings(state) && settings == st_fs(state)
+//@     invariant totalActiveStake == max(eb_sum(flats, epc.CurrentEpoch.ActiveIndices, len(epc.CurrentEpoch.ActiveIndices)), spec.EFFECTIVE_BALANCE_INCREMENT) && adjustedTotalSlashingBalance == min(max(eb_sum(flats, epc.CurrentEpoch.ActiveIndices, len(epc.CurrentEpoch.ActiveIndices)), spec.EFFECTIVE_BALANCE_INCREMENT), mul64(slash_total(st_slashings(state)), st_fs(state).ProportionalSlashingMultiplier)) && slashingsEpoch == (epc.CurrentEpoch.Epoch + spec.EPOCHS_PER_SLASHINGS_VECTOR / 2) % 18446744073709551616
+//@     invariant old(spec != nil && epc != nil && state != nil && epc.CurrentEpoch != nil && len(flats) < 4611686018427387904) ==> (forall k :: {bal_at(n_set_bal, st_bals(state), k)} 0 <= k && k < i ==> bal_at(n_set_bal, st_bals(state), k) == ite(flats[k].Slashed && (epc.CurrentEpoch.Epoch + spec.EPOCHS_PER_SLASHINGS_VECTOR / 2) % 18446744073709551616 == flats[k].WithdrawableEpoch, ite(bal_at(old(n_set_bal), st_bals(state), k) >= mul64(mul64(flats[k].EffectiveBalance / spec.EFFECTIVE_BALANCE_INCREMENT, min(max(eb_sum(flats, epc.CurrentEpoch.ActiveIndices, len(epc.CurrentEpoch.ActiveIndices)), spec.EFFECTIVE_BALANCE_INCREMENT), mul64(slash_total(st_slashings(state)), st_fs(state).ProportionalSlashingMultiplier))) / max(eb_sum(flats, epc.CurrentEpoch.ActiveIndices, len(epc.CurrentEpoch.ActiveIndices)), spec.EFFECTIVE_BALANCE_INCREMENT), spec.EFFECTIVE_BALANCE_INCREMENT), bal_at(old(n_set_bal), st_bals(state), k) - mul64(mul64(flats[k].EffectiveBalance / spec.EFFECTIVE_BALANCE_INCREMENT, min(max(eb_sum(flats, epc.CurrentEpoch.ActiveIndices, len(epc.CurrentEpoch.ActiveIndices)), spec.EFFECTIVE_BALANCE_INCREMENT), mul64(slash_total(st_slashings(state)), st_fs(state).ProportionalSlashingMultiplier))) / max(eb_sum(flats, epc.CurrentEpoch.ActiveIndices, len(epc.CurrentEpoch.ActiveIndices)), spec.EFFECTIVE_BALANCE_INCREMENT), spec.EFFECTIVE_BALANCE_INCREMENT), 0), bal_at(old(n_set_bal), st_bals(state), k)))
+//@     invariant forall k :: {bal_at(n_set_bal, st_bals(state), k)} k < 0 || k >= i ==> bal_at(n_set_bal, st_bals(state), k) == bal_at(old(n_set_bal), st_bals(state), k)
 
 //@ func (state *BeaconStateView) ProcessEpoch(ctx, spec, epc) err
 //@   property C18
@@ -596,6 +619,7 @@ package phase0
 //@     invariant ctx_t >= old(ctx_t) && (old(ctx_seen) || !ctx_seen)
 //@     invariant ctx_t > old(ctx_t) ==> !ctx_cancelled(ctx, old(ctx_t))
 //@   assigns ghost(n_biter), ghost(biter_pos), ghost(biter_reg), ghost(n_set_eb)
+//@   assigns ghost(n_set_bal)
 //@   assigns ghost(n_eth1_reset), ghost(n_slash_reset), ghost(last_slash_reset), ghost(n_set_mix), ghost(last_set_mix_epoch), ghost(last_set_mix), ghost(n_hist_update)
 //@   assigns ghost(n_set_prevjust), ghost(set_prevjust), ghost(n_set_curjust), ghost(set_curjust), ghost(n_set_fin), ghost(set_fin), ghost(n_set_jbits), ghost(set_jbits)
 //@   assigns ghost(n_viter), ghost(viter_pos), ghost(viter_reg), ghost(n_val_write), ghost(n_set_exit), ghost(set_exit_v), ghost(set_exit_val), ghost(n_set_wd), ghost(set_wd_v), ghost(set_wd_val)
@@ -614,6 +638,7 @@ package phase0
 //@   loop *
 //@     invariant ctx_t >= old(ctx_t) && (old(ctx_seen) || !ctx_seen)
 //@     invariant ctx_t > old(ctx_t) ==> !ctx_cancelled(ctx, old(ctx_t))
+//@   assigns ghost(n_set_bal)
 //@   assigns ghost(n_set_mix), ghost(last_set_mix_epoch), ghost(last_set_mix)
 //@   assigns ghost(n_set_lhdr), ghost(set_lhdr)
 //@   assigns ghost(n_viter), ghost(viter_pos), ghost(viter_reg), ghost(n_val_write), ghost(n_set_exit), ghost(set_exit_v), ghost(set_exit_val), ghost(n_set_wd), ghost(set_wd_v), ghost(set_wd_val)
